@@ -14,6 +14,7 @@ from sa.srcmodel import dotted
 from sa.srcmodel import root_name
 
 from checks.shared import check_context_manager_pairing
+from checks.shared import check_scope_stack_ownership
 from sa.util import is_self_attr
 from sa.util import render_methods
 
@@ -177,21 +178,7 @@ def run(prog: Program, res: Result) -> None:  # noqa: PLR0912, PLR0915
                         res.ok("C07.R3", f"{cp.file}:{n.lineno} RenderContext.copy", what, "sanctioned hand-over")
                     else:
                         res.fail("C07.R3", file=cp.file, line=n.lineno, qualname="RenderContext.copy", construct=n, message=f"copy() gives the child context the parent's `{txt.split('.', 1)[1]}`: caller state (loops, locals, counters …) becomes visible inside the isolated partial/macro", what=what)
-    # scope stack: pushed/popped only by RenderContext.extend
-    n_sp = 0
-    for mod in prog.modules.values():
-        for c in ast.walk(mod.tree):
-            if isinstance(c, ast.Call) and isinstance(c.func, ast.Attribute) and c.func.attr in ("push", "pop") and isinstance(c.func.value, ast.Attribute) and c.func.value.attr == "scope" and root_name(c.func.value) in ("self", "context", "ctx", "macro_context"):
-                fi = prog.enclosing_function(mod, c)
-                if root_name(c.func.value) == "self" and (fi is None or fi.cls is not ctx):
-                    continue
-                n_sp += 1
-                what = f"`{norm(c)}` inside RenderContext.extend"
-                if fi is not None and fi.cls is ctx and fi.name == "extend":
-                    res.ok("C07.R2", f"{mod.relpath}:{c.lineno} {fi.qualname}", what, "paired in try/finally by extend() (C07.R1)")
-                else:
-                    res.fail("C07.R2", file=mod.relpath, line=c.lineno, qualname=fi.qualname if fi else "", construct=c, message="the render scope stack is pushed/popped by hand outside RenderContext.extend: an early exit (break, error, abandoned generator) leaves the scope pushed and block-bound names leak", what=what)
-    res.floor("C07.R2", "scope push/pop sites", n_sp, 2)
+    check_scope_stack_ownership(prog, res, "C07.R2")
     # render / call tags
     n_iso_tags = 0
     for m in render_methods(prog):
